@@ -254,8 +254,122 @@ fn mode_name(m: FrameMode) -> &'static str {
 }
 
 /// Read all frames of `stream` under one chunking; compare with `msgs`.
+fn other_mode(m: FrameMode) -> FrameMode {
+    if m == FrameMode::Handshake { FrameMode::Distribution } else { FrameMode::Handshake }
+}
+
+static MADE: std::sync::atomic::AtomicUsize = std::sync::atomic::AtomicUsize::new(0);
+
+/// A deframer / framer for `mode`, by one of the ways a caller can arrive at it: made for it, made for the other mode and
+/// switched (what a connection does after the handshake), switched away and back.
+fn deframer_for(ctx: &Ctx, mode: FrameMode) -> MessageDeframer {
+    match MADE.fetch_add(1, std::sync::atomic::Ordering::Relaxed) % 3 {
+        0 => MessageDeframer::new(mode),
+        1 => {
+            ctx.count("deframers_switched_to_their_mode", 1);
+            let mut d = MessageDeframer::new(other_mode(mode));
+            d.set_mode(mode);
+            d
+        }
+        _ => {
+            let mut d = MessageDeframer::new(mode);
+            d.set_mode(other_mode(mode));
+            d.set_mode(mode);
+            d
+        }
+    }
+}
+
+fn framer_for(mode: FrameMode) -> MessageFramer {
+    match MADE.fetch_add(1, std::sync::atomic::Ordering::Relaxed) % 3 {
+        0 => MessageFramer::new(mode),
+        1 => {
+            let mut f = MessageFramer::new(other_mode(mode));
+            f.set_mode(mode);
+            f
+        }
+        _ => {
+            let mut f = MessageFramer::new(mode);
+            f.set_mode(other_mode(mode));
+            f.set_mode(mode);
+            f
+        }
+    }
+}
+
+/// One deframer and one framer across the switch a connection makes: handshake-mode messages, the switch, then
+/// distribution-mode messages of every size class (also the ones a two-byte prefix could not announce).
+async fn across_the_switch(ctx: &Ctx, rng: &mut Rng) {
+    for round in 0..ctx.pick(12usize, 300usize) {
+        let hs: Vec<Vec<u8>> = (0..rng.below(4)).map(|_| { let n = *rng.pick(&[0usize, 1, 20, 255, 256, 65535]); rng.bytes(n) }).collect();
+        let ds: Vec<Vec<u8>> = (0..1 + rng.below(4)).map(|_| { let n = *rng.pick(&[0usize, 1, 255, 65535, 65536, 65537, 70_000, 1 << 20]); rng.bytes(n) }).collect();
+        let mut fr = MessageFramer::new(FrameMode::Handshake);
+        let mut stream: Vec<u8> = Vec::new();
+        for m in &hs {
+            let _ = fr.write_framed(&mut stream, m).await;
+        }
+        fr.set_mode(FrameMode::Distribution);
+        for m in &ds {
+            let _ = fr.write_framed(&mut stream, m).await;
+        }
+        let mut want: Vec<u8> = Vec::new();
+        for m in &hs {
+            want.extend(prefix(FrameMode::Handshake, m.len()));
+            want.extend_from_slice(m);
+        }
+        for m in &ds {
+            want.extend(prefix(FrameMode::Distribution, m.len()));
+            want.extend_from_slice(m);
+        }
+        ctx.eval(1);
+        ctx.class(&format!("across-the-switch/{}hs/{}", hs.len(), ds.iter().map(|m| match m.len() { 0 => "0", 1..=255 => "s", 256..=65535 => "m", _ => "l" }).collect::<Vec<_>>().join("")));
+        if stream != want {
+            ctx.viol("C05:switched-framer-layout", "a framer switched from handshake to distribution mode does not write length prefix ++ data in the mode in force", json!({"round": round, "handshake_lengths": hs.iter().map(|m| m.len()).collect::<Vec<_>>(), "distribution_lengths": ds.iter().map(|m| m.len()).collect::<Vec<_>>(), "stream_len": stream.len(), "expected_len": want.len()}));
+            continue;
+        }
+        let n = want.len();
+        let mut cuts: Vec<usize> = (0..rng.below(12)).map(|_| 1 + rng.below(n.max(2) - 1)).collect();
+        cuts.retain(|c| *c > 0 && *c < n);
+        cuts.sort();
+        cuts.dedup();
+        cuts.push(n);
+        let pend: Vec<bool> = (0..cuts.len()).map(|_| rng.bool()).collect();
+        let mut rd = Scripted::new(want.clone(), cuts.clone(), pend);
+        let mut de = MessageDeframer::new(FrameMode::Handshake);
+        let mut bad: Option<String> = None;
+        for (i, m) in hs.iter().enumerate() {
+            ctx.eval(1);
+            match de.read_framed(&mut rd).await {
+                Ok(got) if &got == m => {}
+                Ok(got) => bad = Some(format!("handshake-mode frame {} read back as {} bytes instead of {}", i, got.len(), m.len())),
+                Err(e) => bad = Some(format!("handshake-mode frame {} ({} bytes): {}", i, m.len(), e)),
+            }
+            if bad.is_some() {
+                break;
+            }
+        }
+        if bad.is_none() {
+            de.set_mode(FrameMode::Distribution);
+            for (i, m) in ds.iter().enumerate() {
+                ctx.eval(1);
+                match de.read_framed(&mut rd).await {
+                    Ok(got) if &got == m => {}
+                    Ok(got) => bad = Some(format!("distribution-mode frame {} read back as {} bytes instead of {}", i, got.len(), m.len())),
+                    Err(e) => bad = Some(format!("distribution-mode frame {} ({} bytes) after the switch: {}", i, m.len(), e)),
+                }
+                if bad.is_some() {
+                    break;
+                }
+            }
+        }
+        if let Some(b) = bad {
+            ctx.viol("C05:frame-lost-across-the-mode-switch", "a deframer that read the handshake and was then switched to distribution mode does not return the frames written", json!({"round": round, "problem": b, "handshake_lengths": hs.iter().map(|m| m.len()).collect::<Vec<_>>(), "distribution_lengths": ds.iter().map(|m| m.len()).collect::<Vec<_>>(), "cuts": cuts.iter().take(12).collect::<Vec<_>>()}));
+        }
+    }
+}
+
 async fn read_back(ctx: &Ctx, mode: FrameMode, msgs: &[Vec<u8>], stream: &[u8], cuts: Vec<usize>, pend: Vec<bool>, origin: &str) {
-    let de = MessageDeframer::new(mode);
+    let de = deframer_for(ctx, mode);
     let ncuts = cuts.len();
     let mut rd = Scripted::new(stream.to_vec(), cuts.clone(), pend);
     for (i, want) in msgs.iter().enumerate() {
@@ -296,7 +410,7 @@ async fn read_back(ctx: &Ctx, mode: FrameMode, msgs: &[Vec<u8>], stream: &[u8], 
 
 async fn writer_checks(ctx: &Ctx, mode: FrameMode, msg: &[u8]) -> Vec<u8> {
     ctx.eval(1);
-    let fr = MessageFramer::new(mode);
+    let fr = framer_for(mode);
     let mut expect = prefix(mode, msg.len());
     expect.extend_from_slice(msg);
     let one = fr.frame_message(msg);
@@ -839,13 +953,14 @@ async fn transport_part(ctx: &Ctx, rng: &mut Rng) {
 }
 
 pub fn run(ctx: &Ctx) {
-    ctx.rule("cases = message sequences (lengths 0,1,2,255,256,65535,65536,... in both framing modes) written by both framing functions and read back under a scripted transport: ALL 2^(n-1) chunkings of every stream up to 11 (quick) / 15 (thorough) bytes with Pending between chunks, random cuts / 1-byte dribble / cuts around frame boundaries for long streams, over-long declared lengths (allocation measured), EOF at every offset inside a frame; the streaming writer over scripted write transports (every combination of 1..6 bytes accepted by the first two calls, fixed k bytes per call, random scripts; plain and truly vectored transports; Pending between calls) and through an in-memory pipe of every capacity 1..24 bytes against a concurrent reader; plus handshakes whose last message arrives glued to the first distribution frames, read partly through the connection and partly from the read half taken out of it; plus one transport object over its whole life (writes that fail for want of a connection, because the peer is gone or because it does not read until the write times out; close; connect to the next socket; mode switches), what each peer reads compared with the writes reported successful on that connection; plus the node's second read loop over a real loopback socket written in scripted slices; evaluations = frames read and judged; distinct = distinct (mode, frame-length classes, chunking style) combinations");
+    ctx.rule("cases = message sequences (lengths 0,1,2,255,256,65535,65536,... in both framing modes) written by both framing functions and read back under a scripted transport (framers and deframers made for their mode, switched to it, or switched away and back; one pair carried across the handshake-to-distribution switch with frames of every size class behind it): ALL 2^(n-1) chunkings of every stream up to 11 (quick) / 15 (thorough) bytes with Pending between chunks, random cuts / 1-byte dribble / cuts around frame boundaries for long streams, over-long declared lengths (allocation measured), EOF at every offset inside a frame; the streaming writer over scripted write transports (every combination of 1..6 bytes accepted by the first two calls, fixed k bytes per call, random scripts; plain and truly vectored transports; Pending between calls) and through an in-memory pipe of every capacity 1..24 bytes against a concurrent reader; plus handshakes whose last message arrives glued to the first distribution frames, read partly through the connection and partly from the read half taken out of it; plus one transport object over its whole life (writes that fail for want of a connection, because the peer is gone or because it does not read until the write times out; close; connect to the next socket; mode switches), what each peer reads compared with the writes reported successful on that connection; plus the node's second read loop over a real loopback socket written in scripted slices; evaluations = frames read and judged; distinct = distinct (mode, frame-length classes, chunking style) combinations");
     ctx.assume("independent framing model: big-endian length prefix (2 bytes handshake, 4 bytes distribution) followed by the data");
     let rt = tokio::runtime::Builder::new_current_thread().enable_all().build().expect("runtime");
     let mut rng = Rng::derive(ctx.seed, 5, 1);
     let r = guarded(|| {
         rt.block_on(async {
             deframer_part(ctx, &mut rng).await;
+            across_the_switch(ctx, &mut rng).await;
             writer_part(ctx, &mut rng).await;
             handover_part(ctx, &mut rng).await;
             transport_part(ctx, &mut rng).await;
